@@ -86,3 +86,14 @@ META["C06"] = dict(
     trusted_base=COMMON_TB,
     assumptions=["0<=P<=1, 0<=N<=1000; N>=2, 0<=K,Draws<=N", "atol 1e-10 as in the property"],
 )
+
+META["C14"] = dict(
+    level_text="Theorems (Lean): bin x = i iff BinToValue i <= x < BinToValue (i+1) for the linear rule; every Add increments exactly one counter (conservation under any history); BinToValue is strictly increasing and affine; the rank walk returns the bin holding the goal-th binned sample with in-bin rank, is monotone in the goal and is NaN exactly when that sample is in the under/over-flow. Correspondence: counters after every history (exact off bin edges, either neighbour within rounding distance of an edge), BinToValue, HistogramQuantile and HistogramIQR of the real code against the model, for linear and logarithmic histograms.",
+    level_note="Trusted: Lean kernel, harness sampling; LogHist positions m*log_b(x) are enclosed by MV.I.logQ (interval arithmetic; soundness per MV/Proofs/Interval.lean where proved). Near-tie policy: a value within 8-16 eps (relative) of an edge may land in either neighbouring bin, as the property allows.",
+    technique="Lean 4 proofs about the binning rule and rank walk + differential correspondence over Add histories",
+    rule="lh min max n xs qs bs / gh b m max xs qs bs: one histogram history per line (0..60 adds, thorough 0..500), 1..50 bins, values dense just below the first edge, at exact edges, around the top edge and far outside; q in {0,1,j/total,random}; LogHist bases 2..10 with 1..4 bins per power, max at exact powers and arbitrary. non-trivial = >=3 adds",
+    exhaustive_part="",
+    trusted_base=COMMON_TB,
+    assumptions=["finite positive x for LogHist; min<max; HistogramQuantile at goal=floor(q*total)=0 accepts NaN (the property is silent there)",
+                 "the harness also asserts after every single Add that the grand total grew by exactly one"],
+)
